@@ -22,6 +22,7 @@ META = {
     "assumptions": [],
 }
 META["explanation"] += ' Also COPY, constructor wiring per object, DEP-C18 E1.'
+META["explanation"] += ' Round 5: DEP-C06 NOMUT, DEP-C07 COUNT / PARALLEL for this class, DEP-C15 DEFAULTS storage; dependencies are evaluated first. HAZARD: constructs that do not mean what they look like, met in the analysed code (defaults evaluated once, class-level containers changed through self, dict.fromkeys with a shared mutable value, late-binding lambdas, truth value of objects that define __len__) are reported by every check.'
 MIN_INSTANCES = {"FORMULA": 3, "DRAW": 1, "AGREE": 1}
 CLS = "GeometricReservoirStorage"
 
